@@ -198,6 +198,11 @@ func parseNumberFormatter(formatter string, value *value.Number) (string, error)
 				switch state {
 				case sFixedSign:
 					numFixedPrecision = numFixedPrecision*10 + int(ch-'0')
+					// fmt honours precisions up to 1e6 only: beyond that it
+					// prints a failure text (%!(NOVERB)) instead of the number
+					if numFixedPrecision > 1000000 {
+						return "", zerr.NewErrorSLOT("无效的格式化字符串")
+					}
 				default:
 					return "", zerr.NewErrorSLOT("无效的格式化字符串")
 				}
